@@ -222,9 +222,15 @@ class Arc2D(object):
         """
         if self.is_circle:  # the start/mid/end construction is undefined for a closed circle
             return Arc2D(self.c.reflect(normal, origin), self.r)
-        return Arc2D.from_start_mid_end(self.p2.reflect(normal, origin),
-                                        self.midpoint.reflect(normal, origin),
-                                        self.p1.reflect(normal, origin))
+        # mirror the centre and the two end directions; a mirror reverses the direction
+        # of travel, so the image of the end is the new start (fitting a circle through
+        # three reflected points loses most digits for short arcs)
+        x_axis = Vector2D(1, 0)
+        a1 = x_axis.angle_counterclockwise(
+            Vector2D(self._cos_a2, self._sin_a2).reflect(normal))
+        a2 = x_axis.angle_counterclockwise(
+            Vector2D(self._cos_a1, self._sin_a1).reflect(normal))
+        return Arc2D(self.c.reflect(normal, origin), self.r, a1, a2)
 
     def scale(self, factor, origin=None):
         """Scale a arc by a factor from an origin point.
